@@ -73,14 +73,27 @@ def run(ctx):
                 big_targets.append((idx, d.name, pos == len(descs) - 1))
     r.shuffle(big_targets)
     big_targets.sort(key=lambda t: not t[2])
+    huge_quota = 6 if ctx["tier"] == "quick" else 40
     n_big = 0
-    for idx, fname, is_last in big_targets[: (40 if ctx["tier"] == "quick" else 400)]:
+    n_huge = 0
+    # huge payloads where NOTHING is read after the field: the last field of a non-flexible class (a flexible class
+    # reads its tagged section next and would notice the truncation there)
+    def _kind(t):
+        return next(d.kafka for d in describe(classes[t[0]]) if d.name == t[1])
+    huge_first = [t for t in big_targets if t[2] and not classes[t[0]].__flexible__ and _kind(t) in ("bytes", "records")]
+    chosen = huge_first[:huge_quota] + [t for t in big_targets if t not in set(huge_first[:huge_quota])][: (40 if ctx["tier"] == "quick" else 400)]
+    for idx, fname, is_last in chosen:
         cls = classes[idx]
         val = gen.entity(cls)
         names = [d.name for d in describe(cls)]
         fi = names.index(fname)
         d = describe(cls)[fi]
         size = r.choice([8191, 8193, 10000, 16385, 20000]) if d.kafka != "string" or cls.__flexible__ else r.choice([8193, 10000, 20000])
+        if is_last and n_huge < huge_quota and not cls.__flexible__ and d.kafka in ("bytes", "records"):
+            # record sets beyond any plausible internal chunk size (64 KiB, 1 MiB, ...): evaluated on the implementation only
+            n_huge += 1
+            size = [65537, 70000, 2**20 + 5, 1_500_000, 3 * 2**20 + 17, 2**20 - 1][n_huge % 6] if ctx["tier"] == "quick" else r.choice(
+                [65537, 70000, 2**20 + 5, 1_500_000, 3 * 2**20 + 17, 5_000_000])
         val[1][fi] = ("str", b"s" * size) if d.kafka == "string" else ("bytes", bytes(r.getrandbits(8) for _ in range(64)) * (size // 64) + bytes(size % 64))
         enc = cc.impl_encode(cls, to_py(cls, val))
         if enc[0] != "ok":
@@ -90,7 +103,9 @@ def run(ctx):
         n_big += 1
         n_inst += 1
         cuts = sorted(set(list(range(0, 40)) + list(range(n - 80, n)) + [r.randrange(n) for _ in range(60)]
-                         + [c for b in (8192, 16384) for c in range(b - 3, b + 40) if c < n]))
+                         + [c for b in (8192, 16384) for c in range(b - 3, b + 40) if c < n]
+                         + [n - 1 - r.randrange(min(n, 2**16)) for _ in range(20)] + [n - 1 - r.randrange(min(n, 2**20)) for _ in range(20)]
+                         + [c for b in (2**16, 2**17, 2**20, 2**21, 3 * 2**20) for c in (b - 1, b, b + 1, b + 30) if c < n]))
         reader = entity_reader(cls)
         for k in cuts:
             total_prefixes += 1
